@@ -70,11 +70,18 @@ MkM(l) == [t |-> IF TdDev(l) THEN [l.t EXCEPT !.of = Unq(@), !.q = l.t.of.q] ELS
            w |-> l.w, lv |-> l.lv, npc |-> l.npc, bfn |-> l.w # 0]
 (* ibf: the subtree reads a bit-field wider than int whose declared type is not int/unsigned/_Bool (IMPL-DEFINED, *)
 (* gcc gives those their own type): such nodes are audited by clang only                                          *)
+(* z: what is known about the node as an integer constant expression: "zero" (a null pointer constant when of integer *)
+(* type or cast to void*, 6.3.2.3p3), "nonzero", "unknown" (constant, value not tracked), "na" (not a constant)       *)
 LeafNode(l, isobj) == [e |-> l.n, x |-> MkX(l), m |-> MkM(l), d |-> 0, devs |-> IF TdDev(l) THEN {"ArrayQualOnArrayType"} ELSE {}, obj |-> isobj,
+                       z |-> IF isobj THEN "na" ELSE IF l.npc THEN "zero" ELSE "nonzero",
                        ibf |-> BitfieldIsImplDefined(l.t, l.w) /\ l.w > 32]
 LeafNodes == {LeafNode(l, TRUE) : l \in ObjLeaves} \cup {LeafNode(l, FALSE) : l \in ConstLeaves}
 
-Node(e, x, m, d, devs, ibf) == [e |-> e, x |-> x, m |-> m, d |-> d, devs |-> devs, obj |-> FALSE, ibf |-> ibf]
+IsNpc(t, z) == z = "zero" /\ (IsInt(t) \/ t = Ptr(Void))
+Node(e, x, m, d, devs, ibf, z) ==
+  [e |-> e, x |-> [x EXCEPT !.npc = IsNpc(x.t, z)], m |-> [m EXCEPT !.npc = IsNpc(x.t, z)], d |-> d, devs |-> devs, obj |-> FALSE, ibf |-> ibf, z |-> z]
+ZConst(S) == IF \A n \in S : n.z # "na" THEN "unknown" ELSE "na"
+ZNot(a) == IF a.z = "zero" THEN "nonzero" ELSE IF a.z = "na" THEN "na" ELSE "unknown"
 
 (* ---------------------------------------------------------------------- *)
 Cand == LeafNodes \cup {pool[i] : i \in 1..Len(pool)}
@@ -111,7 +118,7 @@ G_Bin ==
          f(D) == M_mkbinaryexpr(M_BinGroups[GroupOf(op)], a.m, b.m, targ, D).t
      IN /\ Fresh(a) /\ Fresh(b) /\ OkBoth(xt, f(Devs))
         /\ Add(Node("(" \o a.e \o " " \o op \o " " \o b.e \o ")", XV(xt), MV(f(Devs)), 1 + Max2(a.d, b.d),
-                    a.devs \cup b.devs \cup LocalFired(f), a.ibf \/ b.ibf))
+                    a.devs \cup b.devs \cup LocalFired(f), a.ibf \/ b.ibf, ZConst({a, b})))
 
 (* ---- unary + - ~ ! ---------------------------------------------------------- *)
 G_Un ==
@@ -122,7 +129,7 @@ G_Un ==
      IN /\ Fresh(a) /\ OkBoth(xt, f(Devs))
         /\ Add(Node("(" \o op \o a.e \o ")", XV(xt),
                     [MV(f(Devs)) EXCEPT !.bfn = keep, !.w = IF keep THEN a.m.w ELSE 0],
-                    1 + a.d, a.devs \cup LocalFired(f) \cup (IF keep /\ a.x.w # 0 THEN {"SizeofSeesBitfield"} \cap Devs ELSE {}), a.ibf))
+                    1 + a.d, a.devs \cup LocalFired(f) \cup (IF keep /\ a.x.w # 0 THEN {"SizeofSeesBitfield"} \cap Devs ELSE {}), a.ibf, IF op \in {"+", "-"} THEN a.z ELSE ZNot(a)))
 
 (* ---- conditional (the controlling expression is a non-constant object) ------- *)
 CondLeaves == {n \in LeafNodes : n.obj /\ n.e \in {"a_int", "p_int", "a_double", "a_bool", "sa.uint_7"}}
@@ -138,7 +145,7 @@ G_Cond ==
          det == (IsPtr(VT(a)) /\ IsPtr(VT(b)) /\ PtrTargetsCompatible(VT(a), VT(b))) => CompositeDetermined(Unq(VT(a).to), Unq(VT(b).to))
      IN /\ Fresh(a) /\ Fresh(b) /\ OkBoth(xt, f(Devs)) /\ det
         /\ Add(Node("(" \o c0.e \o " ? " \o a.e \o " : " \o b.e \o ")", XV(xt), MV(f(Devs)), 1 + Max2(a.d, b.d),
-                    a.devs \cup b.devs \cup LocalFired(f), a.ibf \/ b.ibf \/ c0.ibf))
+                    a.devs \cup b.devs \cup LocalFired(f), a.ibf \/ b.ibf \/ c0.ibf, "na"))
 
 (* ---- cast --------------------------------------------------------------------- *)
 CastTypes == <<B("bool"), B("char"), B("schar"), B("uchar"), B("short"), B("ushort"), B("int"), B("uint"), B("long"), B("ulong"),
@@ -157,13 +164,16 @@ G_Cast ==
   /\ \E i \in RS(1..Len(CastTypes)) : \E a \in RN(IF IsVoid(CastTypes[i]) THEN Cand ELSE ScalarC) :
      LET t == CastTypes[i]
      IN /\ Fresh(a) /\ CastOK(t, VT(a)) /\ (~IsVoid(t) => M_PROPSCALAR(M_exprtype(a.m)))
-        /\ Add(Node("((" \o CTName(i) \o ")" \o a.e \o ")", XV(TypeOfCast(t)), MV(M_strip(t)), 1 + a.d, a.devs, a.ibf))
+        \* `(void *)E` is a null pointer constant iff E is an integer constant expression with value 0 (6.3.2.3p3):
+        \* constants whose value is not tracked, and pointer-typed null pointer constants, are not cast to void*
+        /\ (t = Ptr(Void) => (a.z # "unknown" /\ ~(IsPtr(VT(a)) /\ a.x.npc)))
+        /\ Add(Node("((" \o CTName(i) \o ")" \o a.e \o ")", XV(TypeOfCast(t)), MV(M_strip(t)), 1 + a.d, a.devs, a.ibf, IF t = Ptr(Void) /\ IsInt(VT(a)) THEN a.z ELSE IF IsInt(t) /\ a.z = "zero" THEN "zero" ELSE IF a.z = "na" THEN "na" ELSE "unknown"))
 
 (* ---- comma ---------------------------------------------------------------------- *)
 G_Comma ==
   /\ \E a \in RN(Cand), b \in RN(Cand) :
         /\ Fresh(a) /\ Fresh(b) /\ b.x.w = 0
-        /\ Add(Node("(" \o a.e \o ", " \o b.e \o ")", XV(VT(b)), MV(M_exprtype(b.m)), 1 + Max2(a.d, b.d), a.devs \cup b.devs, a.ibf \/ b.ibf))
+        /\ Add(Node("(" \o a.e \o ", " \o b.e \o ")", XV(VT(b)), MV(M_exprtype(b.m)), 1 + Max2(a.d, b.d), a.devs \cup b.devs, a.ibf \/ b.ibf, "na"))
 
 (* ---- assignment, compound assignment, ++ -- ---------------------------------------- *)
 AssignableFrom(a, b) ==       \* 6.5.16.1p1 (arithmetic, pointer, null pointer constant cases)
@@ -176,7 +186,7 @@ G_Assign ==
   /\ ModLvC # {}
   /\ \E a \in RN(ModLvC) : \E b \in RN(IF IsPtr(Unq(a.x.t)) THEN PtrC \cup {n \in Cand : n.x.npc} ELSE ScalarC) :
         /\ Fresh(a) /\ Fresh(b) /\ AssignableFrom(a, b)
-        /\ Add(Node("(" \o a.e \o " = " \o b.e \o ")", XV(TypeOfAssign(a.x)), MV(M_exprtype(a.m)), 1 + Max2(a.d, b.d), a.devs \cup b.devs, a.ibf \/ b.ibf))
+        /\ Add(Node("(" \o a.e \o " = " \o b.e \o ")", XV(TypeOfAssign(a.x)), MV(M_exprtype(a.m)), 1 + Max2(a.d, b.d), a.devs \cup b.devs, a.ibf \/ b.ibf, "na"))
 G_OpAssign ==
   /\ ModLvC # {}
   /\ \E op \in RS({"+", "-", "*", "/", "%", "<<", ">>", "&", "^", "|"}), a \in RN(ModLvC) :
@@ -185,7 +195,7 @@ G_OpAssign ==
          ok == ~IsErr(xt) /\ (IsArith(Unq(a.x.t)) => IsArith(xt)) /\ (IsPtr(Unq(a.x.t)) => (op \in {"+", "-"} /\ IsPtr(xt)))
          mbin == M_mkbinaryexpr(M_BinGroups[GroupOf(op)], a.m, b.m, targ, Devs).t
      IN /\ Fresh(a) /\ Fresh(b) /\ ok /\ ~IsErr(mbin)
-        /\ Add(Node("(" \o a.e \o " " \o op \o "= " \o b.e \o ")", XV(TypeOfAssign(a.x)), MV(M_exprtype(a.m)), 1 + Max2(a.d, b.d), a.devs \cup b.devs, a.ibf \/ b.ibf))
+        /\ Add(Node("(" \o a.e \o " " \o op \o "= " \o b.e \o ")", XV(TypeOfAssign(a.x)), MV(M_exprtype(a.m)), 1 + Max2(a.d, b.d), a.devs \cup b.devs, a.ibf \/ b.ibf, "na"))
 G_IncDec ==
   /\ ModLvC # {}
   /\ \E op \in RS({"++pre", "--pre", "post++", "post--"}), a \in RN(ModLvC) :
@@ -193,7 +203,7 @@ G_IncDec ==
          txt == IF op = "++pre" THEN "(++" \o a.e \o ")" ELSE IF op = "--pre" THEN "(--" \o a.e \o ")"
                 ELSE IF op = "post++" THEN "(" \o a.e \o "++)" ELSE "(" \o a.e \o "--)"
      IN /\ Fresh(a) /\ ~IsErr(xt)
-        /\ Add(Node(txt, XV(xt), MV(M_unaryexpr(op, a.m, targ, Devs)), 1 + a.d, a.devs, a.ibf))
+        /\ Add(Node(txt, XV(xt), MV(M_unaryexpr(op, a.m, targ, Devs)), 1 + a.d, a.devs, a.ibf, "na"))
 
 (* ---- subscript, member access, call ------------------------------------------------------ *)
 Deref(x) ==      \* 6.5.3.2p4: `*E`
@@ -205,15 +215,15 @@ G_Index ==
          mt == M_mkbinaryexpr("add", a.m, b.m, targ, Devs).t
      IN /\ Fresh(a) /\ Fresh(b) /\ OkBoth(xt, mt) /\ IsPtr(xt) /\ IsPtr(mt)
         /\ Add(Node((IF sw THEN "(" \o b.e \o "[" \o a.e \o "])" ELSE "(" \o a.e \o "[" \o b.e \o "])"),
-                    Deref(XV(xt)), DerefM(MV(mt), Devs), 1 + Max2(a.d, b.d), a.devs \cup b.devs, a.ibf \/ b.ibf))
+                    Deref(XV(xt)), DerefM(MV(mt), Devs), 1 + Max2(a.d, b.d), a.devs \cup b.devs, a.ibf \/ b.ibf, "na"))
 G_Deref ==
   /\ \E a \in RN({n \in PtrC : ~IsVoid(VT(n).to)}) :
         /\ Fresh(a) /\ IsPtr(M_exprtype(a.m))
-        /\ Add(Node("(*" \o a.e \o ")", Deref(a.x), DerefM(a.m, Devs), 1 + a.d, a.devs \cup LocalFired(LAMBDA D : DerefM(a.m, D)), a.ibf))
+        /\ Add(Node("(*" \o a.e \o ")", Deref(a.x), DerefM(a.m, Devs), 1 + a.d, a.devs \cup LocalFired(LAMBDA D : DerefM(a.m, D)), a.ibf, "na"))
 G_Addr ==
   /\ \E a \in RN({n \in Cand : (n.x.lv /\ n.x.w = 0) \/ n.x.t.k = "fn"}) :
         /\ Fresh(a) /\ ~IsErr(M_unaryexpr("&", a.m, targ, Devs))
-        /\ Add(Node("(&" \o a.e \o ")", XV(TypeOfUnary("&", a.x, targ)), MV(M_unaryexpr("&", a.m, targ, Devs)), 1 + a.d, a.devs, a.ibf))
+        /\ Add(Node("(&" \o a.e \o ")", XV(TypeOfUnary("&", a.x, targ)), MV(M_unaryexpr("&", a.m, targ, Devs)), 1 + a.d, a.devs, a.ibf, "na"))
 IsSS(t) == t.k = "struct" /\ t.tag = "SS"
 G_Member ==
   /\ \E s \in RN({n \in Cand : IsSS(n.x.t)}), mi \in RS(1..Len(Members)) :
@@ -224,7 +234,7 @@ G_Member ==
         /\ Add(Node("(" \o s.e \o "." \o mb.n \o ")",
                     [t |-> TypeOfMember(mb, s.x.t.q), w |-> mb.w, lv |-> s.x.lv, npc |-> FALSE],
                     [t |-> M_member(mb, s.m.t.q, Devs), w |-> mb.w, lv |-> s.m.lv, npc |-> FALSE, bfn |-> mb.w # 0],
-                    1 + s.d, s.devs \cup LocalFired(LAMBDA D : M_member(mb, s.m.t.q, D)), s.ibf \/ (BitfieldIsImplDefined(mb.t, mb.w) /\ mb.w > 32)))
+                    1 + s.d, s.devs \cup LocalFired(LAMBDA D : M_member(mb, s.m.t.q, D)), s.ibf \/ (BitfieldIsImplDefined(mb.t, mb.w) /\ mb.w > 32), "na"))
 G_Arrow ==
   /\ \E p \in RN({n \in PtrC : IsSS(VT(n).to)}), mi \in RS(1..Len(Members)) :
      LET mb == Members[mi]
@@ -232,7 +242,7 @@ G_Arrow ==
         /\ Add(Node("(" \o p.e \o "->" \o mb.n \o ")",
                     [t |-> TypeOfMember(mb, VT(p).to.q), w |-> mb.w, lv |-> TRUE, npc |-> FALSE],
                     [t |-> M_member(mb, M_exprtype(p.m).to.q, Devs), w |-> mb.w, lv |-> TRUE, npc |-> FALSE, bfn |-> mb.w # 0],
-                    1 + p.d, p.devs \cup LocalFired(LAMBDA D : M_member(mb, M_exprtype(p.m).to.q, D)), p.ibf \/ (BitfieldIsImplDefined(mb.t, mb.w) /\ mb.w > 32)))
+                    1 + p.d, p.devs \cup LocalFired(LAMBDA D : M_member(mb, M_exprtype(p.m).to.q, D)), p.ibf \/ (BitfieldIsImplDefined(mb.t, mb.w) /\ mb.w > 32), "na"))
 (* 6.5.2.2: call through a function designator or pointer; arguments are arithmetic (every prototype here has *)
 (* arithmetic parameters); the result has the (unqualified) return type                                      *)
 IsFnPtr(t) == IsPtr(t) /\ t.to.k = "fn"
@@ -246,17 +256,17 @@ G_Call ==
      IN /\ Fresh(f) /\ \A u \in used : Fresh(u) /\ u.m.t.k # "error"
         /\ IsFnPtr(M_exprtype(f.m))
         /\ Add(Node("(" \o f.e \o "(" \o args \o "))", XV(Unq(ft.ret)), MV(M_strip(M_exprtype(f.m).to.ret)), 1 + dmax,
-                    f.devs \cup UNION {u.devs : u \in used}, f.ibf \/ \E u \in used : u.ibf))
+                    f.devs \cup UNION {u.devs : u \in used}, f.ibf \/ \E u \in used : u.ibf, "na"))
 
 (* ---- sizeof / _Alignof / parentheses ----------------------------------------------------------- *)
 G_Sizeof ==
   /\ \E a \in RN({n \in Cand : n.x.w = 0 /\ IsCompleteObj(n.x.t)}), par \in RS({FALSE, TRUE}) :
         /\ Fresh(a) /\ ~a.m.bfn /\ ~M_incomplete(a.m.t) /\ a.m.t.k # "fn"
-        /\ Add(Node((IF par THEN "(sizeof(" \o a.e \o "))" ELSE "(sizeof " \o a.e \o ")"), XV(B(SizeTKind)), MV(B("ulong")), 1 + a.d, a.devs, a.ibf))
+        /\ Add(Node((IF par THEN "(sizeof(" \o a.e \o "))" ELSE "(sizeof " \o a.e \o ")"), XV(B(SizeTKind)), MV(B("ulong")), 1 + a.d, a.devs, a.ibf, "nonzero"))
 G_Alignof ==
-  /\ \E i \in RS(1..Len(AlignTypes)) : Add(Node("(_Alignof(" \o ATName(i) \o "))", XV(B(SizeTKind)), MV(B("ulong")), 1, {}, FALSE))
+  /\ \E i \in RS(1..Len(AlignTypes)) : Add(Node("(_Alignof(" \o ATName(i) \o "))", XV(B(SizeTKind)), MV(B("ulong")), 1, {}, FALSE, "nonzero"))
 G_Paren ==
-  /\ \E a \in RN(Cand) : Fresh(a) /\ Add(Node("(" \o a.e \o ")", a.x, a.m, 1 + a.d, a.devs, a.ibf))
+  /\ \E a \in RN(Cand) : Fresh(a) /\ Add(Node("(" \o a.e \o ")", a.x, a.m, 1 + a.d, a.devs, a.ibf, a.z))
 
 Init == targ \in TargetSet /\ pool = <<>>
 Next == G_Bin \/ G_Un \/ G_Cond \/ G_Cast \/ G_Comma \/ G_Assign \/ G_OpAssign \/ G_IncDec \/ G_Index \/ G_Deref \/ G_Addr
